@@ -90,6 +90,21 @@ pub fn add_child(script: Vec<Step>, slot: usize) -> usize {
     })
 }
 
+/// register a child under a given id (ids may be sparse: nested combinators number their leaves
+/// `100*(c+1)+g`); missing ids in between get empty scripts
+pub fn add_child_at(id: usize, script: Vec<Step>, slot: usize) {
+    CTX.with(|c| {
+        let mut c = c.borrow_mut();
+        while c.scripts.len() <= id {
+            c.scripts.push(VecDeque::new());
+            c.handed.push(Vec::new());
+            c.slot_of.push(0);
+        }
+        c.scripts[id] = script.into();
+        c.slot_of[id] = slot;
+    })
+}
+
 pub fn set_slot(child: usize, slot: usize) {
     CTX.with(|c| c.borrow_mut().slot_of[child] = slot);
 }
@@ -165,22 +180,29 @@ pub fn fire(child: usize, age: usize) {
     }
 }
 
-/// the common part of every scripted child's poll
-pub fn poll_child(child: usize, cx: &mut Context<'_>) -> Res {
-    let (step, slot, cls) = CTX.with(|c| {
+/// a child (scripted or a nested combinator) is about to be polled: record and log the waker it is handed
+pub fn child_begin(child: usize, cx: &mut Context<'_>) {
+    let (slot, cls) = CTX.with(|c| {
         let mut c = c.borrow_mut();
-        let step = c.scripts[child].pop_front().unwrap_or(Step {
-            res: Res::Pend,
-            fires: vec![],
-        });
         let slot = c.slot_of[child];
         let cls = classify(&mut c, cx.waker(), slot);
         let w = cx.waker().clone();
         c.handed[child].push((w, cls.clone()));
         c.n_child_polls += 1;
-        (step, slot, cls)
+        (slot, cls)
     });
     log(format!("cb {child} {slot} {cls}"));
+}
+
+/// the common part of every scripted child's poll
+pub fn poll_child(child: usize, cx: &mut Context<'_>) -> Res {
+    let step = CTX.with(|c| {
+        c.borrow_mut().scripts[child].pop_front().unwrap_or(Step {
+            res: Res::Pend,
+            fires: vec![],
+        })
+    });
+    child_begin(child, cx);
     for (c2, age) in &step.fires {
         fire(*c2, *age);
     }
@@ -214,7 +236,7 @@ impl std::fmt::Display for Tagged {
 }
 impl std::error::Error for Tagged {}
 
-fn log_child_drop(child: usize) {
+pub fn log_child_drop(child: usize) {
     log(format!("cd {child}"));
 }
 
